@@ -222,7 +222,7 @@ func (l *cliLayout) prepare(sc *CliScenario) error {
 	return nil
 }
 
-var errnoNum = map[string]int{"EOF": 0, "ENOENT": 2, "EIO": 5, "EACCES": 13, "EMFILE": 24, "EFBIG": 27, "ENOSPC": 28, "EDQUOT": 122, "EROFS": 30, "ENOMEM": 12}
+var errnoNum = map[string]int{"SIGTERM": -15, "SIGINT": -2, "SIGHUP": -1, "EOF": 0, "ENOENT": 2, "EIO": 5, "EACCES": 13, "EMFILE": 24, "EFBIG": 27, "ENOSPC": 28, "EDQUOT": 122, "EROFS": 30, "ENOMEM": 12}
 var errnoName = func() map[int]string {
 	m := map[int]string{}
 	for k, v := range errnoNum {
@@ -355,9 +355,12 @@ func (rig *cliRig) judge(c *CliCase, obs *cliObs, dir string) (*cliVerdict, erro
 	}
 	var keys []string
 	closeFault := false
+	signalled := false
 	for _, in := range obs.Injected {
 		keys = append(keys, in.Target+":"+in.Syscall+":"+in.Errno)
 		switch {
+		case strings.HasPrefix(in.Errno, "SIG"):
+			// handled below: the call itself proceeds
 		case in.Syscall == "openat":
 			fail("open of " + in.Target + " failed with " + in.Errno)
 		case in.Syscall == "read" && in.Errno != "EOF":
@@ -366,6 +369,9 @@ func (rig *cliRig) judge(c *CliCase, obs *cliObs, dir string) (*cliVerdict, erro
 			fail("write to the destination failed with " + in.Errno)
 		case in.Syscall == "close":
 			closeFault = true
+		}
+		if strings.HasPrefix(in.Errno, "SIG") {
+			signalled = true
 		}
 	}
 	if len(keys) > 0 {
@@ -412,6 +418,11 @@ func (rig *cliRig) judge(c *CliCase, obs *cliObs, dir string) (*cliVerdict, erro
 	if v.Expect == "SUCCESS" && closeFault {
 		v.Expect, v.Why = "EITHER", "close failed after a complete write"
 	}
+	if signalled && v.Expect == "SUCCESS" {
+		// a termination signal may kill the process (any status, no message
+		// required) or be survived; status 0 still promises a complete parser
+		v.Expect, v.Why = "EITHER", "a termination signal arrived during the run"
+	}
 	// ---- the contract ----
 	complete := func() (bool, string) {
 		if ref == nil || ref.ParseErr != "" || ref.CompileErr != "" || ref.Panic != "" {
@@ -449,7 +460,7 @@ func (rig *cliRig) judge(c *CliCase, obs *cliObs, dir string) (*cliVerdict, erro
 		v.Class = "spurious_failure"
 		v.Detail = fmt.Sprintf("exit status %d on a request that must succeed (valid grammar, writable destination, no fault fired); stderr=%q", obs.Exit, clipStr(obs.Stderr, 300))
 	case obs.Exit != 0 && v.Expect == "FAIL":
-		if strings.TrimSpace(obs.Stderr) == "" {
+		if strings.TrimSpace(obs.Stderr) == "" && !signalled {
 			v.Class = "failure_without_message"
 			v.Detail = fmt.Sprintf("exit status %d with empty stderr although %s", obs.Exit, v.Why)
 		}
@@ -525,6 +536,9 @@ func (e *Env) cliTexts(repoCopy string, r *simrt.SplitMix64, n int) []cliText {
 		cliText{"valid", "longcomment", hdr + "S <- 'a' T\n# " + strings.Repeat("x", 70000) + "\nT <- 'b' U\nU <- 'c'\n"},
 		cliText{"invalid", "longcomment-then-error", hdr + "S <- 'a' T\n# " + strings.Repeat("x", 70000) + "\nT <- ( 'b'\n"},
 		cliText{"valid", "longrule", hdr + "S <- 'a' { _ = \"" + strings.Repeat("y", 70000) + "\" } T\nT <- 'c'\n"},
+		// an action that is not Go: generation reports the parse error of the
+		// emitted code (and dumps the raw buffer), which must be a failure
+		cliText{"invalid", "badaction", hdr + "S <- 'a' { this is ( not go } T\nT <- 'b'\n"},
 		cliText{"valid", "crlf", strings.ReplaceAll(hdr+"S <- 'a' T\nT <- 'b'\n", "\n", "\r\n")},
 		cliText{"valid", "nofinalnewline", hdr + "S <- 'a' T\nT <- 'b' # trailing comment without newline"},
 	)
@@ -606,6 +620,22 @@ func faultsFor(sc *CliScenario, calls map[string]int, r *simrt.SplitMix64, write
 		one(CliFault{Target: "src", Syscall: "read", Errno: "EIO", When: k})
 		one(CliFault{Target: "src", Syscall: "read", Errno: "EOF", When: k})
 		one(CliFault{Target: "src", Syscall: "read", Errno: "EIO", When: k, Persistent: true})
+	}
+	// a termination signal while a call on the grammar or the destination is
+	// in flight (the call itself proceeds)
+	for _, sg := range []string{"SIGTERM", "SIGINT"} {
+		if n := calls["src:read"]; n > 0 {
+			one(CliFault{Target: "src", Syscall: "read", Errno: sg, When: 1 + r.Intn(n)})
+		}
+		if n := calls["dst:write"]; n > 0 {
+			one(CliFault{Target: "dst", Syscall: "write", Errno: sg, When: 1 + r.Intn(n)})
+		}
+	}
+	if n := calls["dst:openat"]; n > 0 {
+		one(CliFault{Target: "dst", Syscall: "openat", Errno: "SIGTERM", When: 1})
+	}
+	if n := calls["dst:close"]; n > 0 {
+		one(CliFault{Target: "dst", Syscall: "close", Errno: "SIGTERM", When: 1})
 	}
 	nw := calls["dst:write"]
 	pos := map[int]bool{}
